@@ -4,6 +4,7 @@ from skglm.solvers.base import BaseSolver
 from skglm.solvers.common import construct_grad, construct_grad_sparse
 from skglm.utils.prox_funcs import _prox_vec
 from skglm.utils.validation import check_attrs
+from skglm import _verif
 
 
 class FISTA(BaseSolver):
@@ -56,6 +57,9 @@ class FISTA(BaseSolver):
             )
         else:
             lipschitz = datafit.get_global_lipschitz(X, y)
+        if _verif.ON:
+            _verif.emit("init", solver=self, X=X, y=y, datafit=datafit,
+                        penalty=penalty, w=w, Xw=Xw)
 
         for n_iter in range(self.max_iter):
             t_old = t_new
@@ -97,6 +101,9 @@ class FISTA(BaseSolver):
 
             p_obj = datafit.value(y, w, Xw) + penalty.value(w)
             p_objs_out.append(p_obj)
+            if _verif.ON:
+                _verif.emit("outer", t=n_iter, stop_crit=stop_crit, w=w, Xw=Xw)
+                _verif.emit("record", t=n_iter, p_obj=p_obj, w=w, Xw=Xw)
             if self.verbose:
                 print(
                     f"Iteration {n_iter+1}: {p_obj:.10f}, "
